@@ -130,15 +130,18 @@ def oracle(ctx, sp, p, res, label):
         mask = R.contact_mask(r, sig) & R.branch_mask(ps, r, sig)
         scale = 1 + float(np.abs(cr[:, i, j]).max())
         tol = 1e-11 * scale * max(1.0, L / 64.0)
-        for which, gin in (('reported-residual', gin_res[:, i, j]), ('reported-root', gin_x[:, i, j])):
+        for which, gin, gin_t in (('reported-residual', gin_res[:, i, j], gin_res[:, j, i]), ('reported-root', gin_x[:, i, j], gin_x[:, j, i])):
             best = None
             for form in (('published', 'original') if cs['t'] == 'MS' else ('published',)):
-                with np.errstate(all='ignore'):
-                    cref = R.c_ref(cs, r, gin, u, R.snap(sig, r), ms=form)
-                    err = np.abs(cref - cr[:, i, j])
-                    err = np.where(np.isnan(err), np.inf, err)[mask]
-                e2 = float(err.max()) if err.size else 0.0
-                best = e2 if best is None else min(best, e2)
+                # a root is symmetric only to the solver tolerance (x_ab - x_ba ~ 1e-10 after an asymmetric guess); which of the two
+                # entries the pair's closure reads is not specified (MatrixArray assumes symmetric matrices), so either is accepted
+                for gg in ((gin, gin_t) if i != j else (gin,)):
+                    with np.errstate(all='ignore'):
+                        cref = R.c_ref(cs, r, gg, u, R.snap(sig, r), ms=form)
+                        err = np.abs(cref - cr[:, i, j])
+                        err = np.where(np.isnan(err), np.inf, err)[mask]
+                    e2 = float(err.max()) if err.size else 0.0
+                    best = e2 if best is None else min(best, e2)
             if best <= tol or cs['t'] != 'MS':
                 ctx.observe('O2_closure_%s/tol' % which, best / tol)
             if best <= tol:
